@@ -14,7 +14,7 @@ OUTSIDE = ["values longer than 1 character (they are only moved and compared)", 
 
 
 def obligations(tier):
-    T = 90 if tier == "quick" else 600
+    T = 90 if tier == "quick" else 900
     obs = [dict(name="selftest_strip", func="selftest_strip", file="xhlib.py", timeout=60, bounds="engine self-test")]
     for case in range(7):
         for op in range(15):
@@ -38,5 +38,5 @@ def replay(data):
 
 
 def main(tier):
-    return xhprop.main(PROP, tier, FILE, obligations(tier), FUNCTIONS, ASSUMPTIONS, OUTSIDE, signature,
+    return xhprop.main(PROP, tier, FILE, obligations(tier), FUNCTIONS, ASSUMPTIONS, OUTSIDE, signature, extra_chars=(1 if tier == "thorough" else 0),
                        bounds="7 (object kind, property) cases x 15 operations from every pre-state over 4 key roles; SM chart: 14 operations")
